@@ -147,6 +147,7 @@ def instantiate(E, name, spec):
         return sq
     if isinstance(spec, Obj):
         cls = E.lookup_qual(spec.cls) if isinstance(spec.cls, str) else spec.cls
+        name = name if spec.cls is not None or not name else name
         ref = E.alloc(HObj(cls, {}, lazy=spec.lazy, name=name, prov=spec.prov, maybe=spec.maybe))
         for f, fs in spec.fields.items():
             E.heap[ref.addr].fields[f] = instantiate(E, '%s.%s' % (name, f), fs)
@@ -496,13 +497,14 @@ def _apply_contract(E, c, fn, args, kwargs, node, env, site):
     exc_nodes = {k: _parse(v) for k, v in c.exc_ensures.items()}
     saved_old = getattr(E, 'old_stash', {})
     old = _collect_old(E, list(ens_nodes.values()) + list(exc_nodes.values()), env)
-    E.trace.append(('contract-call', c.func))
+    E.trace.append(('contract-call', c.func, dict(env.locals)))
     E.havoced = True
 
     def raise_with(cls):
         if c.effects:
             c.effects(E, env.locals, 'raise')
         exc = VExc(cls, [], sym=True, uid=E.fresh('exc'))
+        E.trace.append(('contract-raise', c.func, exc))
         env.locals['exc'] = exc
         E.old_stash = old
         for k, nd in exc_nodes.items():
@@ -524,6 +526,7 @@ def _apply_contract(E, c, fn, args, kwargs, node, env, site):
         hooked = c.call_hook(E, env.locals) if c.call_hook else None
         result = hooked if hooked is not None else instantiate(E, E.fresh('ret_' + c.func.split('.')[-1]), c.returns) if c.returns else E.fresh_opaque('ret')
         env.locals['result'] = result
+        E.trace.append(('contract-ret', c.func, result))
         E.old_stash = old
         for k, nd in ens_nodes.items():
             try:
